@@ -456,7 +456,7 @@ def _coeff_sign(stmts, c, pm):
             val = flip = None
             if isinstance(n, ast.AugAssign) and isinstance(n.op, (ast.Add, ast.Sub)):
                 val, flip = n.value, (-1 if isinstance(n.op, ast.Sub) else 1)
-            elif isinstance(n, ast.Assign) and isinstance(n.value, ast.BinOp):
+            elif isinstance(n, ast.Assign) and (isinstance(n.value, ast.BinOp) or (isinstance(n.targets[0], ast.Subscript) and isinstance(n.value, (ast.UnaryOp, ast.Call, ast.Name)))):
                 val, flip = n.value, 1
             if val is None or not any(isinstance(x, ast.Name) and x.id == c for x in ast.walk(val)):
                 continue
